@@ -1,24 +1,25 @@
 (* ProtoLex.v — the content of a .proto file: what `protoFileHasGoPackage` reads of it, and what
    "declares option go_package" means (no proofs; theorems in ProtoScan.v).
 
-   Go (gogenproto/gen/generate.go:144-162)                       →  here
-   ------------------------------------------------------------------------------------------
-   bufio.Scanner with the default ScanLines split function        →  [content_lines]: split at
-     (lines without the newline, one trailing '\r' dropped, no      '\n', drop a final empty
-     final empty line)                                              piece, [drop_cr]
-   strings.Contains(scanner.Text(), "option go_package =") for    →  [scan_go_package]
-     some line
-   (lines of 64 KiB and more make Scan stop early; the error is ignored by the code — files
-    with such lines are outside the model, see design_notes/C20.md)
-
    Specification side — the property says "proto … that does not declare `option go_package`".
    A file declares it when its token stream (protobuf lexical structure: white space, `//` and
    `/* */` comments, "…" and '…' string literals with backslash escapes, identifiers, single
-   character punctuation) contains the consecutive tokens
+   character punctuation: [lex]) contains the consecutive tokens
         option  go_package  =  <string literal>
-   [declares_go_package].  So `option go_package="x";`, `option  go_package  =  "x";` and the
-   option split over lines all declare it; `// option go_package = "x";`, the same inside
-   /* */ or inside a string literal do not.                                                   *)
+   [declares_go_package].
+
+   Go (gogenproto/gen/generate.go, after fix C20-go-package-scan)    →  here
+   ------------------------------------------------------------------------------------------
+   declaresGoPackage: one pass over the bytes, a state machine over   →  [scan_from]: [lex_step]
+     inCode / inIdent / afterSlash / inLineComment / inBlockComment /    on the state, every token
+     inBlockCommentStar / inString / inStringEscape, the closure         it emits fed to [gp_next]
+     `token` advancing `matched` over `option go_package = <string>`  →  [gp_next] (0..4, 4 = found)
+   the string literal left open at the end of the file                →  [flush_str]
+   `return matched == 4`                                              →  [scan_go_package]
+
+   Before the fix the function was a line scan for the substring `option go_package =`
+   (bufio.Scanner lines, strings.Contains): kept as [scan_go_package_orig] with its
+   counterexamples (ProtoScan.v, scan_refuted_…).                                               *)
 From Coq Require Import String List Bool Arith Ascii.
 From GT Require Export ProtoPath.
 Import ListNotations.
@@ -39,7 +40,7 @@ Fixpoint nl_join (l : list string) : string :=
 Definition pieces (l : list string) : string := String.concat "" l.
 Definition ctl_char (n : nat) : string := String (ascii_of_nat n) EmptyString.
 
-(* ------------------------------------------------------------------ the real scan *)
+(* ------------------------------------------------------------------ the line scan before fix C20-go-package-scan *)
 Fixpoint drop_cr (s : string) : string :=
   match s with
   | EmptyString => EmptyString
@@ -62,7 +63,7 @@ Definition go_package_marker : string := "option go_package =".
 Definition scan_lines (lines : list string) : bool :=
   existsb (str_contains go_package_marker) lines.
 
-Definition scan_go_package (content : string) : bool := scan_lines (content_lines content).
+Definition scan_go_package_orig (content : string) : bool := scan_lines (content_lines content).
 
 (* ------------------------------------------------------------------ the lexical structure *)
 Inductive token : Type := TIdent (s : string) | TStr | TPunct (c : ascii).
@@ -135,21 +136,66 @@ Definition lex_flush (st : lstate) (toks : list token) : list token :=
 Definition lex (s : string) : list token :=
   let '(st, toks) := lex_from LNormal [] s in rev (lex_flush st toks).
 
+(* the k-th token of the declaration `option go_package = <string>` *)
+Definition tok_matches (k : nat) (t : token) : bool :=
+  match k, t with
+  | 0, TIdent s => String.eqb s "option"
+  | 1, TIdent s => String.eqb s "go_package"
+  | 2, TPunct c => Ascii.eqb c "="
+  | 3, TStr => true
+  | _, _ => false
+  end.
+
+(* the tokens start with the declaration from its k-th token on *)
+Fixpoint starts_gp (k : nat) (toks : list token) {struct toks} : bool :=
+  if Nat.leb 4 k then true
+  else match toks with
+       | [] => false
+       | t :: r => tok_matches k t && starts_gp (S k) r
+       end.
+
 Fixpoint has_go_package_tokens (toks : list token) : bool :=
   match toks with
   | [] => false
-  | t :: r =>
-      match t, r with
-      | TIdent a, TIdent b :: TPunct e :: TStr :: _ =>
-          (String.eqb a "option" && String.eqb b "go_package" && Ascii.eqb e "=")
-          || has_go_package_tokens r
-      | _, _ => has_go_package_tokens r
-      end
+  | _ :: r => starts_gp 0 toks || has_go_package_tokens r
   end.
 
 (* the file declares `option go_package` *)
 Definition declares_go_package (content : string) : bool := has_go_package_tokens (lex content).
 
-(* the inputs on which the line scan decides "declares go_package" correctly *)
+(* ------------------------------------------------------------------ declaresGoPackage (the code) *)
+(* the closure `token`: how many tokens of the declaration the last tokens read are *)
+Definition gp_next (m : nat) (t : token) : nat :=
+  if Nat.eqb m 4 then 4
+  else if Nat.eqb m 0 && tok_matches 0 t then 1
+  else if Nat.eqb m 1 && tok_matches 1 t then 2
+  else if Nat.eqb m 2 && tok_matches 2 t then 3
+  else if Nat.eqb m 3 && tok_matches 3 t then 4
+  else if tok_matches 0 t then 1
+  else 0.
+
+(* one byte: the state machine, and the tokens it completes in the order they are completed *)
+Definition scan_step (st : lstate) (m : nat) (c : ascii) : lstate * nat :=
+  let '(st', toks) := lex_step st [] c in (st', fold_left gp_next (rev toks) m).
+
+Fixpoint scan_from (st : lstate) (m : nat) (s : string) : lstate * nat :=
+  match s with
+  | EmptyString => (st, m)
+  | String c r => let '(st', m') := scan_step st m c in scan_from st' m' r
+  end.
+
+(* the end of the file ends a string literal that was left open *)
+Definition flush_str (st : lstate) (m : nat) : nat :=
+  match st with
+  | LStr _ | LEsc _ => gp_next m TStr
+  | _ => m
+  end.
+
+Definition scan_go_package (content : string) : bool :=
+  let '(st, m) := scan_from LNormal 0 content in Nat.eqb (flush_str st m) 4.
+
+(* the inputs on which a decider is right about "declares go_package" *)
 Definition scan_agrees (content : string) : bool :=
   Bool.eqb (scan_go_package content) (declares_go_package content).
+Definition scan_agrees_orig (content : string) : bool :=
+  Bool.eqb (scan_go_package_orig content) (declares_go_package content).
